@@ -571,3 +571,30 @@ def random_probe(rng, d, L, D=2):
     """Random MPS tensor list with small bonds (entangled probe)."""
     dims = [1] + [D] * (L - 1) + [1]
     return [(rng.normal(size=(d, dims[i], dims[i + 1])) + 1j * rng.normal(size=(d, dims[i], dims[i + 1]))) / np.sqrt(d * dims[i]) for i in range(L)]
+
+
+def first_sweep_reduction(qd, qD):
+    """
+    Structure-only classifier for single-site TDVP on a right-orthonormal start: (reduced, unsaturated).
+    reduced: the QR steps of the first left-to-right sweep shrink an inner bond (some charge sector has more bond states than the left block
+    can supply); unsaturated: such a shrunk bond is afterwards NOT saturated from the left in every charge sector (some sector carries fewer states
+    than the left block offers). Uses the quantum numbers only (multiplicities per charge, generic tensors assumed).
+    """
+    from collections import Counter
+    sup = Counter(int(x) for x in qD[0])
+    reduced_any = False
+    bad = False
+    for i in range(len(qD) - 1):
+        avail = Counter()
+        for q, m in sup.items():
+            for s in qd:
+                avail[q + int(s)] += m
+        mult = Counter(int(x) for x in qD[i + 1])
+        new = Counter({q: min(mult[q], avail[q]) for q in mult if min(mult[q], avail[q]) > 0})
+        if i < len(qD) - 2:
+            reduced = any(mult[q] > avail[q] for q in mult)
+            unsat = any(new[q] < avail[q] for q in avail if avail[q] > 0)
+            reduced_any |= reduced
+            bad |= reduced and unsat
+        sup = new
+    return reduced_any, bad
